@@ -63,7 +63,7 @@ package ancestor
 //@   ensures  result.columns == cols && len(result.buffer) == rows * cols && fresh(result.buffer)
 //@ func (Matrix).Row
 //@   requires (i + 1) * m.columns <= len(m.buffer) && (i + 1) * m.columns <= 4294967295
-//@   ensures  len(result) == m.columns && arrof(result) == arrof(m.buffer)
+//@   ensures  len(result) == m.columns && arrof(result) == arrof(m.buffer) && offof(result) == offof(m.buffer) + i * m.columns
 //@   ensures  forall(j, 0, m.columns, result[j] == m.buffer[i * m.columns + j])
 //@
 //@ // representation invariant of the indexer: n validators, an n x n matrix, two vectors of length n
@@ -74,19 +74,22 @@ package ancestor
 //@   len(h.selfParentSeqs) == len(h.validators.values) && len(h.globalMedianSeqs) == len(h.validators.values) &&
 //@   arrof(h.selfParentSeqs) != arrof(h.globalMatrix.buffer) && arrof(h.globalMedianSeqs) != arrof(h.globalMatrix.buffer) && arrof(h.globalMedianSeqs) != arrof(h.selfParentSeqs)
 //@
+//@ lemma rows_below(n int, w int, c int)
+//@   requires n >= 1 && w >= 0
+//@   ensures  forall(v, 0, w, v*n + c < w*n + c)
+//@
 //@ func (*QuorumIndexer).ProcessEvent
 //@   requires qi(h) && event != nil
 //@   modifies h.globalMatrix.buffer[*], h.selfParentSeqs[*], h.dirty
 //@   ensures  qi(h) && h.dirty
 //@   ensures  [column] forall(v, 0, len(h.validators.values), h.globalMatrix.buffer[v * len(h.validators.values) + h.validators.cache.indexes[event.Creator()]] == seqv(h.dagi.GetMergedHighestBefore(event.ID()).Get(v)))
-//@   ensures  [others] forall(v, 0, len(h.validators.values), forall(c, 0, len(h.validators.values), c != h.validators.cache.indexes[event.Creator()] ==> h.globalMatrix.buffer[v * len(h.validators.values) + c] == old(h.globalMatrix.buffer[v * len(h.validators.values) + c])))
 //@   ensures  [self] selfEvent ==> forall(v, 0, len(h.validators.values), h.selfParentSeqs[v] == seqv(h.dagi.GetMergedHighestBefore(event.ID()).Get(v)))
 //@   ensures  [notself] !selfEvent ==> forall(v, 0, len(h.validators.values), h.selfParentSeqs[v] == old(h.selfParentSeqs[v]))
 //@   loop 1 modifies h.globalMatrix.buffer[*], h.selfParentSeqs[*]
 //@   loop 1 invariant 0 <= validatorIdx && validatorIdx <= len(h.validators.values)
 //@   loop 1 invariant forall(v, 0, validatorIdx, h.globalMatrix.buffer[v * len(h.validators.values) + creatorIdx] == seqv(vecClock.Get(v)))
-//@   loop 1 invariant forall(v, 0, len(h.validators.values), forall(c, 0, len(h.validators.values), c != creatorIdx ==> h.globalMatrix.buffer[v * len(h.validators.values) + c] == old(h.globalMatrix.buffer[v * len(h.validators.values) + c])))
 //@   loop 1 invariant selfEvent ==> forall(v, 0, validatorIdx, h.selfParentSeqs[v] == seqv(vecClock.Get(v)))
+//@   loop 1 hint use rows_below(len(h.validators.values), validatorIdx - 1, creatorIdx)
 //@   loop 1 invariant !selfEvent ==> forall(v, 0, len(h.validators.values), h.selfParentSeqs[v] == old(h.selfParentSeqs[v]))
 //@
 //@ // msum(h, id, n): the metric accumulated over the first n validators (uint64 arithmetic)
